@@ -5,13 +5,18 @@ package main
 
 import (
 	"fmt"
+	"io"
 	"os"
 	"path/filepath"
 	"runtime"
+	"sort"
 	"strings"
+	"sync"
 	"time"
 
+	"github.com/anz-bank/sysl/pkg/loader"
 	"github.com/anz-bank/sysl/pkg/syslutil"
+	"github.com/sirupsen/logrus"
 	"github.com/spf13/afero"
 )
 
@@ -364,4 +369,141 @@ func runC18(res *Result, tier string, rnd *Rand, replay string) {
 	if len(opCases) > 0 {
 		res.Sample(opCases[len(opCases)/2])
 	}
+	if replay == "" {
+		c18Loader(res, rnd, tier)
+	}
+}
+
+// ---- the loader: a recording filesystem underneath loader.LoadSyslModule with an explicit root ----
+
+type passRecFs struct {
+	afero.Fs
+	mu    sync.Mutex
+	calls []recCall
+}
+
+func (r *passRecFs) rec(m string, p ...string) {
+	r.mu.Lock()
+	r.calls = append(r.calls, recCall{m, p})
+	r.mu.Unlock()
+}
+func (r *passRecFs) Create(n string) (afero.File, error) { r.rec("Create", n); return r.Fs.Create(n) }
+func (r *passRecFs) Mkdir(n string, p os.FileMode) error { r.rec("Mkdir", n); return r.Fs.Mkdir(n, p) }
+func (r *passRecFs) MkdirAll(n string, p os.FileMode) error {
+	r.rec("MkdirAll", n)
+	return r.Fs.MkdirAll(n, p)
+}
+func (r *passRecFs) Open(n string) (afero.File, error) { r.rec("Open", n); return r.Fs.Open(n) }
+func (r *passRecFs) OpenFile(n string, f int, p os.FileMode) (afero.File, error) {
+	r.rec("OpenFile", n)
+	return r.Fs.OpenFile(n, f, p)
+}
+func (r *passRecFs) Remove(n string) error              { r.rec("Remove", n); return r.Fs.Remove(n) }
+func (r *passRecFs) RemoveAll(n string) error           { r.rec("RemoveAll", n); return r.Fs.RemoveAll(n) }
+func (r *passRecFs) Rename(o, n string) error           { r.rec("Rename", o, n); return r.Fs.Rename(o, n) }
+func (r *passRecFs) Stat(n string) (os.FileInfo, error) { r.rec("Stat", n); return r.Fs.Stat(n) }
+func (r *passRecFs) Chmod(n string, m os.FileMode) error {
+	r.rec("Chmod", n)
+	return r.Fs.Chmod(n, m)
+}
+func (r *passRecFs) Chown(n string, u, g int) error { r.rec("Chown", n); return r.Fs.Chown(n, u, g) }
+func (r *passRecFs) Chtimes(n string, a time.Time, m time.Time) error {
+	r.rec("Chtimes", n)
+	return r.Fs.Chtimes(n, a, m)
+}
+
+// c18Loader: module arguments and import statements of every spelling, loaded through the loader with the
+// root /work/proj; nothing outside the root may reach the filesystem, and spellings that stay inside load
+func c18Loader(res *Result, rnd *Rand, tier string) {
+	const root = "/work/proj"
+	app := func(n string) string { return n + ":\n    Ep:\n        ...\n" }
+	mkfs := func(main string) *passRecFs {
+		m := afero.NewMemMapFs()
+		for p, c := range map[string]string{
+			root + "/main.sysl": main, root + "/a.sysl": app("A"), root + "/sub/dep.sysl": app("Dep"), root + "/sub/deep/leaf.sysl": app("Leaf"),
+			"/work/outside.sysl": app("Leaked"), "/outside.sysl": app("Leaked"), "/work/proj2/x.sysl": app("Leaked"), "/work/projx.sysl": app("Leaked"),
+			"/etc/hosts.sysl": app("Leaked"), "/work/proj.sysl": app("Leaked"), "/work/sub/dep.sysl": app("Leaked"), "/work/a.sysl": app("Leaked"), "/a.sysl": app("Leaked"),
+			"/main.sysl": app("Leaked"), "/work/main.sysl": app("Leaked"),
+		} {
+			_ = afero.WriteFile(m, p, []byte(c), 0o644)
+		}
+		return &passRecFs{Fs: m}
+	}
+	load := func(fs *passRecFs, module string) (apps []string, err error) {
+		defer func() {
+			if x := recover(); x != nil {
+				err = fmt.Errorf("panic: %v", x)
+			}
+		}()
+		logger := logrus.New()
+		logger.SetOutput(io.Discard)
+		mod, _, err := loader.LoadSyslModule(root, module, fs, logger)
+		if mod != nil {
+			for n := range mod.Apps {
+				apps = append(apps, n)
+			}
+			sort.Strings(apps)
+		}
+		return apps, err
+	}
+	judge := func(kind, spelled string, fs *passRecFs, apps []string) {
+		for _, c := range fs.calls {
+			for _, p := range c.Paths {
+				if !underRoot(root, p) {
+					res.Violate(Violation{Sig: "loader:" + kind + ":" + c.Method + ":escape", What: "with the root " + root + " in force, " + c.Method + " reached " + p + " on behalf of a " + kind,
+						Input: map[string]any{"root": root, kind: spelled}, Got: p})
+					return
+				}
+			}
+		}
+		for _, a := range apps {
+			if a == "Leaked" {
+				res.Violate(Violation{Sig: "loader:" + kind + ":content-from-outside", What: "a file outside the root was compiled into the model", Input: map[string]any{"root": root, kind: spelled}})
+			}
+		}
+	}
+	names := []string{"main.sysl", "./main.sysl", "sub/../main.sysl", "/main.sysl", "sub/./../main.sysl", "sub//dep.sysl", "a.sysl", "missing.sysl", "typo/main.sysl",
+		"../outside.sysl", "../proj2/x.sysl", "../projx.sysl", "../proj.sysl", "/../outside.sysl", "//../outside.sysl", "/./../outside.sysl", "sub/../../outside.sysl", "sub/../../../outside.sysl",
+		"/etc/hosts.sysl", "../../etc/hosts.sysl", "../sub/dep.sysl", "../a.sysl", "../../a.sysl", "../main.sysl", "..", "../", "", "/"}
+	for i := 0; i < 60; i++ {
+		n := c18RandName(rnd)
+		if !strings.HasPrefix(n, "//") {
+			names = append(names, n+".sysl")
+		}
+	}
+	inside := map[string]string{"main.sysl": "Main", "./main.sysl": "Main", "sub/../main.sysl": "Main", "sub/./../main.sysl": "Main", "sub//dep.sysl": "Dep", "a.sysl": "A"}
+	for _, n := range names {
+		fs := mkfs(app("Main"))
+		apps, err := load(fs, n)
+		res.Eval("loader-module\x00"+n, true)
+		res.Count("loader:module")
+		judge("module", n, fs, apps)
+		if want, ok := inside[n]; ok && (err != nil || len(apps) != 1 || apps[0] != want) {
+			res.Violate(Violation{Sig: "loader:module:inside-refused", What: "a module spelling that stays inside the root does not load its file", Input: map[string]any{"root": root, "module": n}, Got: fmt.Sprint(apps, err), Want: want})
+		}
+	}
+	imports := []string{"a", "./a", "sub/dep", "sub/./dep", "sub/../a", "/a", "/sub/dep", "sub/deep/../dep", "../outside", "../proj2/x", "../projx", "/../outside", "sub/../../outside", "sub/../../../outside",
+		"../../etc/hosts", "/etc/hosts", "../sub/dep", "../a", "../../a", "../main", "/../work/outside", "./../outside", "sub/deep/../../../outside"}
+	insideImp := map[string]string{"a": "A", "./a": "A", "sub/dep": "Dep", "sub/./dep": "Dep", "sub/../a": "A", "/a": "A", "/sub/dep": "Dep", "sub/deep/../dep": "Dep"}
+	for _, imp := range imports {
+		fs := mkfs("import " + imp + "\n" + app("Main"))
+		apps, err := load(fs, "main.sysl")
+		res.Eval("loader-import\x00"+imp, true)
+		res.Count("loader:import")
+		judge("import", imp, fs, apps)
+		if want, ok := insideImp[imp]; ok && (err != nil || len(apps) != 2 || !(apps[0] == want || apps[1] == want)) {
+			res.Violate(Violation{Sig: "loader:import:inside-refused", What: "an import spelling that stays inside the root does not load its file", Input: map[string]any{"root": root, "import": imp}, Got: fmt.Sprint(apps, err), Want: want})
+		}
+	}
+	// an import written in a file of a subdirectory resolves against that directory
+	for _, imp := range []string{"dep2", "../a", "../../outside", "../../../outside", "deep/../../../outside", "/a", "/../outside"} {
+		fs := mkfs("import sub/mid\n" + app("Main"))
+		_ = afero.WriteFile(fs.Fs, root+"/sub/mid.sysl", []byte("import "+imp+"\n"+app("Mid")), 0o644)
+		_ = afero.WriteFile(fs.Fs, root+"/sub/dep2.sysl", []byte(app("Dep2")), 0o644)
+		apps, _ := load(fs, "main.sysl")
+		res.Eval("loader-import-sub\x00"+imp, true)
+		res.Count("loader:import-from-subdirectory")
+		judge("import", "sub/mid.sysl: "+imp, fs, apps)
+	}
+	_ = tier
 }
